@@ -106,6 +106,37 @@ def elems_of(v):
     return None
 
 
+def _ends_in_return(block):
+    """`{ stmts; return X; }` -> (leading stmts, X) ; None otherwise."""
+    if block is None or block.get("k") != "block" or not block["stmts"]:
+        return None
+    last = block["stmts"][-1]
+    if last["k"] == "expr" and last["e"]["k"] == "return" and last["e"].get("e") is not None:
+        return block["stmts"][:-1], last["e"]["e"]
+    return None
+
+
+def desugar_early_returns(block):
+    """Body of a closure / function: `if c { ..; return a; } rest` (no else) == `if c { ..; a } else { rest }`, recursively;
+    a trailing `return x;` is the value x.  Only statements of the top-level block are rewritten."""
+    if block is None or block.get("k") != "block":
+        return block
+    stmts = block["stmts"]
+    for i, st in enumerate(stmts):
+        if st["k"] == "expr" and st["e"]["k"] == "if" and not st["e"].get("else") and st["e"]["cond"].get("k") != "letcond":
+            r = _ends_in_return(st["e"]["then"])
+            if r is not None and i < len(stmts) - 1:
+                lead, val = r
+                then_b = dict(st["e"]["then"], stmts=lead + [{"k": "expr", "e": val, "semi": False, "l": val.get("l", 0)}])
+                rest = desugar_early_returns(dict(block, stmts=stmts[i + 1 :]))
+                new_if = dict(st["e"], then=then_b)
+                new_if["else"] = rest
+                return dict(block, stmts=stmts[:i] + [{"k": "expr", "e": new_if, "semi": False, "l": st.get("l", 0)}])
+    if stmts and stmts[-1]["k"] == "expr" and stmts[-1]["e"]["k"] == "return" and stmts[-1]["e"].get("e") is not None:
+        return dict(block, stmts=stmts[:-1] + [{"k": "expr", "e": stmts[-1]["e"]["e"], "semi": False, "l": stmts[-1].get("l", 0)}])
+    return block
+
+
 class Env:
     def __init__(self, parent=None, branch=False):
         self.vars = {}
@@ -382,6 +413,11 @@ class Interp:
 
     def e_letcond(self, n, env):
         v = self.eval(n["e"], env)
+        mg = getattr(self, "map_gets", {}).get(id(v))
+        pat = n["pat"]
+        if mg is not None and mg[0] is v and pat["k"] == "tuplestruct" and pat["path"]["segs"][-1:] == ["Some"] and len(pat["elems"]) == 1:
+            self.bind(pat["elems"][0], v[2][0], env)
+            return ("app", "contains", (("seq", mg[1]), mg[2]))
         self.bind(n["pat"], v, env)
         return ("app", "iflet:" + show(n["pat"], 40), (v,))
 
@@ -456,12 +492,31 @@ class Interp:
         self.bind(pat, s, env)
 
     def e_for(self, n, env):
+        """`for x in xs { acc = f(acc, x) }` is the fold `xs.fold(acc, |acc, x| f(acc, x))`: loop-carried variables become fold terms
+        (first pass finds which variables the body assigns, second pass evaluates the body with them bound to the accumulator)."""
         seq = self.eval(n["e"], env)
+        probe = Env(env, branch=True)
+        self.bind(n["pat"], elem_of(seq), probe)
+        saved_unknown = list(self.unknown)
+        self.block(n["body"], probe)
+        carried = sorted(probe.over)
+        if elem_of(seq) is None or not carried:
+            for nm, v in probe.over.items():
+                env.assign(nm, ("app", "foreach", (seq, v)))
+            return UNIT
+        self.unknown = saved_unknown
         le = Env(env, branch=True)
         self.bind(n["pat"], elem_of(seq), le)
+        fids = {}
+        for nm in carried:
+            self.nfold += 1
+            fids[nm] = self.nfold
+            le.let(nm, ("acc", fids[nm]))
         self.block(n["body"], le)
-        for nm, v in le.over.items():
-            env.assign(nm, ("app", "foreach", (seq, v)))
+        for nm in carried:
+            init = env.get(nm) or ("p", nm)
+            body = le.vars.get(nm, ("acc", fids[nm]))
+            env.assign(nm, ("fold", seq, init, body, fids[nm]))
         return UNIT
 
     def e_while(self, n, env):
@@ -549,7 +604,11 @@ class Interp:
                 return ("app", "contains", (("seq", r[1]), args[0]))
             if m == "get" and len(args) == 1:
                 self.lookups.append((r[1], args[0]))
-                return ("app", "Some", (r[2],))
+                out = ("app", "Some", (r[2],))
+                # remembered so that `if let Some(p) = m.get(k)` reads as `if m.contains_key(k) { let p = m[k]; .. }`
+                self.map_gets = getattr(self, "map_gets", {})
+                self.map_gets[id(out)] = (out, r[1], args[0])
+                return out
         if m == "contains" and len(args) == 1:
             return ("app", "contains", (r, args[0]))
         if m == "unwrap" and not args and r[0] == "app" and r[1] in ("Some", "Ok") and len(r[2]) == 1:
@@ -572,7 +631,7 @@ class Interp:
         ce = Env(env)
         for i, p in enumerate(node["params"]):
             self.bind(p, args[i] if i < len(args) else ("opaque", "arg", node["l"]), ce)
-        return self.block(node["body"], ce) if node["body"]["k"] == "block" else self.eval(node["body"], ce)
+        return self.block(desugar_early_returns(node["body"]), ce) if node["body"]["k"] == "block" else self.eval(node["body"], ce)
 
     def map_seq(self, s, clo):
         if s[0] == "seq":
@@ -645,6 +704,9 @@ def pat_keys(pat):
 def ite(c, a, b):
     if a == b:
         return a
+    # `if !c { a } else { b }` is `if c { b } else { a }`: one normal form for the matchers
+    while isinstance(c, tuple) and len(c) == 3 and c[0] == "app" and c[1] == "not" and len(c[2]) == 1:
+        c, a, b = c[2][0], b, a
     return ("ite", c, a, b)
 
 
